@@ -18,6 +18,7 @@ import (
 
 type fgnPart struct {
 	N, K, Via, Cls string
+	B              string // byte class of the content ("typical", "empty", "onebyte", "big", "bom", "utf16")
 }
 
 type fgnRel struct {
@@ -46,6 +47,7 @@ type fgnModel struct {
 	HLink  string
 	StySp  string          // spelling of word/styles.xml
 	StyDef map[string]bool // style ids it defines
+	Zip    map[string]bool // container forms: "dirs", "stored", "ctlast"
 	byName map[string]fgnPart
 }
 
@@ -70,6 +72,14 @@ func fgnDecodeModel(v interface{}) (*fgnModel, error) {
 	}
 	m := &fgnModel{Ns: fgnStr(mm, "ns"), PkgNs: fgnStr(mm, "pkgns"), HLink: fgnStr(mm, "hlink"), byName: map[string]fgnPart{}}
 	m.StyDef = map[string]bool{}
+	m.Zip = map[string]bool{}
+	if zs, ok := mm["zip"].([]interface{}); ok {
+		for _, z := range zs {
+			if s, ok := z.(string); ok {
+				m.Zip[s] = true
+			}
+		}
+	}
 	if st, ok := mm["styles"].(map[string]interface{}); ok {
 		m.StySp = fgnStr(st, "sp")
 		ids, _ := st["defs"].([]interface{})
@@ -80,7 +90,7 @@ func fgnDecodeModel(v interface{}) (*fgnModel, error) {
 		}
 	}
 	for _, p := range fgnList(mm["parts"]) {
-		fp := fgnPart{N: fgnStr(p, "n"), K: fgnStr(p, "k"), Via: fgnStr(p, "via"), Cls: fgnStr(p, "cls")}
+		fp := fgnPart{N: fgnStr(p, "n"), K: fgnStr(p, "k"), Via: fgnStr(p, "via"), Cls: fgnStr(p, "cls"), B: fgnStr(p, "b")}
 		m.Parts = append(m.Parts, fp)
 		m.byName[fp.N] = fp
 	}
@@ -614,13 +624,81 @@ func fgnPartBytes(m *fgnModel, p fgnPart, idx int) []byte {
 	panic("fgn: no bytes for part kind " + p.K + " (" + p.N + ")")
 }
 
+// fgnShapeBytes gives the content of a part its byte class: typ is what a producer typically writes for
+// the kind. Every class keeps the part well-formed for its kind (the specification applies a class only to
+// kinds that admit it, Foreign!BytesKinds).
+func fgnShapeBytes(p fgnPart, typ []byte, idx int) []byte {
+	isXML := bytes.HasPrefix(typ, []byte("<?xml"))
+	switch p.B {
+	case "", "typical":
+		return typ
+	case "empty":
+		return []byte{}
+	case "onebyte":
+		return []byte{byte(idx)}
+	case "big": // larger than 64 KiB buffers and than a 16-bit length; hardly compressible
+		pad := make([]byte, 0, 200000)
+		x := uint32(2463534242 + uint32(idx))
+		for len(pad) < 200000 {
+			x ^= x << 13
+			x ^= x >> 17
+			x ^= x << 5
+			if isXML {
+				pad = append(pad, "0123456789abcdefghijklmnopqrstuvwxyzABCDEFGHIJKLMNOPQRSTUVWXYZ _"[x&63])
+			} else {
+				pad = append(pad, byte(x))
+			}
+		}
+		if isXML { // a comment after the root element
+			return append(append(append([]byte{}, typ...), []byte("\n<!-- ")...), append(pad, []byte(" -->\n")...)...)
+		}
+		return append(append([]byte{}, typ...), pad...)
+	case "bom":
+		if !isXML {
+			panic("fgn: byte order mark on a part that is not XML: " + p.N)
+		}
+		return append([]byte{0xEF, 0xBB, 0xBF}, typ...)
+	case "utf16":
+		if !isXML {
+			panic("fgn: UTF-16 on a part that is not XML: " + p.N)
+		}
+		txt := strings.Replace(string(typ), `encoding="UTF-8"`, `encoding="UTF-16"`, 1)
+		out := []byte{0xFF, 0xFE}
+		for _, r := range txt {
+			if r > 0xFFFF {
+				panic("fgn: non-BMP character in synthesised part " + p.N)
+			}
+			out = append(out, byte(r), byte(r>>8))
+		}
+		return out
+	}
+	panic("fgn: unknown byte class " + p.B)
+}
+
 // fgnSynth writes the package. Entry order follows common producers: content types first,
 // package relationships, then the remaining parts by name.
 func fgnSynth(m *fgnModel) ([]byte, error) {
 	var buf bytes.Buffer
 	zw := zip.NewWriter(&buf)
+	dirs := map[string]bool{}
 	put := func(name string, data []byte) error {
-		w, err := zw.Create(name)
+		if m.Zip["dirs"] { // a placeholder entry for every folder, before its first member (what zip -r writes)
+			segs := strings.Split(name, "/")
+			for k := 1; k < len(segs); k++ {
+				d := strings.Join(segs[:k], "/") + "/"
+				if !dirs[d] {
+					dirs[d] = true
+					if _, err := zw.Create(d); err != nil {
+						return err
+					}
+				}
+			}
+		}
+		method := zip.Deflate
+		if m.Zip["stored"] {
+			method = zip.Store
+		}
+		w, err := zw.CreateHeader(&zip.FileHeader{Name: name, Method: method})
 		if err != nil {
 			return err
 		}
@@ -632,6 +710,9 @@ func fgnSynth(m *fgnModel) ([]byte, error) {
 		if p.N != ordered[0] && p.N != ordered[1] {
 			ordered = append(ordered, p.N)
 		}
+	}
+	if m.Zip["ctlast"] {
+		ordered = append(ordered[1:], ordered[0])
 	}
 	for i, n := range ordered {
 		p, ok := m.byName[n]
@@ -647,7 +728,7 @@ func fgnSynth(m *fgnModel) ([]byte, error) {
 		case p.K == "main":
 			data = fgnDocumentXML(m)
 		default:
-			data = fgnPartBytes(m, p, i)
+			data = fgnShapeBytes(p, fgnPartBytes(m, p, i), i)
 		}
 		if err := put(n, data); err != nil {
 			return nil, err
